@@ -65,7 +65,12 @@ func tokenLess(t1, t2 *token.Token) bool {
 			if t == nil {
 				return ""
 			}
-			return ddptypes.GetUnderlying(t).String()
+			// an alias of a type that could not be parsed has no underlying type
+			underlying := ddptypes.GetUnderlying(t)
+			if underlying == nil {
+				return ""
+			}
+			return underlying.String()
 		}
 		return typeName(t1.AliasInfo.Type) < typeName(t2.AliasInfo.Type)
 	case token.IDENTIFIER, token.SYMBOL, token.INT, token.FLOAT, token.CHAR, token.STRING:
